@@ -19,10 +19,13 @@ import (
 	"crypto/sha256"
 	"encoding/binary"
 	"encoding/hex"
+	"encoding/json"
 	"fmt"
 	"os"
 	"os/exec"
 	"sort"
+	"strconv"
+	"strings"
 	"sync"
 	"sync/atomic"
 	"time"
@@ -408,6 +411,7 @@ type stats struct {
 	fullSeg, headerSeg           int64
 	maxLen                       int
 	nameChecks                   int64
+	mayReject                    int64
 	nsBuild, nsRt, nsName, nsSeg [3]int64 // by plan class: 0 full, 1 quick-2dev small, 2 large
 	evaluated                    int64
 }
@@ -418,13 +422,14 @@ var (
 	samples report.Samples
 )
 
-// One root cause, one key: every symptom that needs a name component value of 253+ bytes is
-// reported under a single key per clause (the concrete symptom goes into Detail). Symptoms seen
-// without such a component keep their specific key.
+// One root cause, one key: when the input has a name component value of 253+ bytes AND the
+// independent walker rejects the encoded packet inside a name component, every symptom of that
+// packet is reported under a single key per clause (the concrete symptom goes into Detail). All
+// other symptoms keep their specific key. C03.seg is never collapsed: it only runs on
+// packets whose contiguous decode already equals the input.
 var collapsed = map[string]string{
 	"C03.wf":   "packet with a name component value of 253+ bytes is not a well-formed TLV",
 	"C03.rt":   "packet with a name component value of 253+ bytes does not decode back to its input",
-	"C03.seg":  "packet with a name component value of 253+ bytes: segmented decode differs from contiguous decode",
 	"C03.name": "component value of 253+ bytes: standalone component/name codec does not round-trip or differs from the packet encoder",
 }
 
@@ -436,6 +441,8 @@ type pend struct {
 	v   report.Violation
 }
 
+var violCase sync.Map // case index -> true if any clause failed for it
+
 var (
 	pendMu  sync.Mutex
 	pending = map[string]*pend{}
@@ -443,12 +450,13 @@ var (
 )
 
 func addV(d *pktgen.Desc, clause, key, detail string, replay map[string]any) {
-	if d.BigComp() {
+	if mal, _ := replay["malformed_name_component"].(bool); mal && d.BigComp() && collapsed[clause] != "" {
 		detail = key + " :: " + detail
 		key = collapsed[clause]
 	}
 	idx, _ := replay["case_index"].(int64)
 	atomic.AddInt64(&nViol, 1)
+	violCase.Store(idx, true)
 	pendMu.Lock()
 	defer pendMu.Unlock()
 	k := clause + "|" + key
@@ -543,6 +551,11 @@ func evalCase(sp *pktgen.Space, idx int64, c pktgen.Case, thorough bool) {
 
 	// ---- C03.wf
 	root, werr := pktgen.Walk(b.Bytes)
+	if werr != "" && (strings.Contains(werr, "0x7/") || strings.Contains(werr, "0x1a/")) {
+		// the walker stopped inside a name / FinalBlockId component: with a 253+-byte component
+		// value in the input, every further symptom of this packet goes under the collapsed key
+		replay["malformed_name_component"] = true
+	}
 	if werr != "" {
 		addV(&d, "C03.wf", kind(&d)+" not a well-formed TLV: "+werr,
 			fmt.Sprintf("%s encodes to %d bytes that the independent TLV walker rejects: %s", d.String(), len(b.Bytes), werr), replay)
@@ -554,6 +567,15 @@ func evalCase(sp *pktgen.Space, idx int64, c pktgen.Case, thorough bool) {
 	var ref, got, exp sink
 	okRef, msg := decode(d.Interest, enc.NewBufferReader(b.Bytes), &ref, true)
 	atomic.AddInt64(&st.decodes, 1)
+	if !okRef && d.Interest && d.PaySize == -1 && len(b.Name) > 0 && b.Name[len(b.Name)-1].Typ == enc.TypeParametersSha256DigestComponent &&
+		strings.Contains(msg, "digest is missing or incorrect") {
+		// The input name ends in ParametersSha256Digest component(s) although the Interest has no
+		// parameters. The packet format calls such an Interest invalid; the property does not say
+		// whether the API must refuse, repair or faithfully encode it, nor whether the decoder
+		// may then reject it. Every answer is accepted.
+		atomic.AddInt64(&st.mayReject, 1)
+		return
+	}
 	if !okRef {
 		addV(&d, "C03.rt", kind(&d)+" contiguous decode fails: "+msg,
 			fmt.Sprintf("%s: ReadInterest/ReadData on the %d bytes just built: %s", d.String(), len(b.Bytes), msg), replay)
@@ -637,7 +659,9 @@ func evalCase(sp *pktgen.Space, idx int64, c pktgen.Case, thorough bool) {
 			st.maxLen = n
 		}
 		st.mu.Unlock()
-		samples.Offer(fmt.Sprintf("%s => %d bytes, contiguous decode equals input, segmentations agree", label, n))
+		if _, bad := violCase.Load(idx); !bad && (idx%397 == 0 || (len(c.Devs) == 1 && idx%61 == 0)) {
+			samples.Offer(fmt.Sprintf("case %d: %s => %d bytes; walker accepts, contiguous decode equals input, standalone name codec agrees, segmentation sweep run", idx, label, n))
+		}
 	}
 }
 
@@ -840,6 +864,44 @@ func checkNames(b *pktgen.Built, root *pktgen.Node, d *pktgen.Desc, bigName bool
 	}
 }
 
+// replayMain re-executes the case named in a replay file (all clauses, thorough segmentation
+// plan) without the enumeration and prints what it finds. Exit 1 if the recorded clause fails again.
+func replayMain(sp *pktgen.Space, file string) {
+	raw, err := os.ReadFile(file)
+	if err != nil {
+		report.Fatal("cannot read replay %s: %v", file, err)
+	}
+	var r struct {
+		Clause, Key string
+		Replay      struct {
+			Case string `json:"case"`
+		} `json:"replay"`
+	}
+	if json.Unmarshal(raw, &r) != nil || r.Replay.Case == "" {
+		report.Fatal("replay %s: no case label", file)
+	}
+	for i, c := range sp.Cases {
+		if sp.Label(c) != r.Replay.Case {
+			continue
+		}
+		evalCase(sp, int64(i), c, true)
+		again := false
+		for _, p := range pending {
+			fmt.Printf("REPLAY clause=%s key=%q :: %s\n", p.v.Clause, p.v.Key, p.v.Detail)
+			if p.v.Clause == r.Clause && p.v.Key == r.Key {
+				again = true
+			}
+		}
+		if again {
+			fmt.Printf("REPLAY-RESULT reproduced clause=%s key=%q\n", r.Clause, r.Key)
+			os.Exit(1)
+		}
+		fmt.Printf("REPLAY-RESULT not reproduced (clause=%s key=%q)\n", r.Clause, r.Key)
+		os.Exit(0)
+	}
+	report.Fatal("replay %s: case %q is not in the enumerated space", file, r.Replay.Case)
+}
+
 func secs(a [3]int64) (o [3]float64) {
 	for i := range a {
 		o[i] = float64(a[i]/1e7) / 100
@@ -882,14 +944,22 @@ func main() {
 	rep = report.New("C03", "exploration")
 	samples.N = 10
 	thorough := rep.Thorough()
-	budget := 95 * time.Second
+	budget := 80 * time.Second
 	if thorough {
-		budget = 26 * time.Minute
+		budget = 25 * time.Minute
+	}
+	if v, err := strconv.Atoi(os.Getenv("VERIF_BUDGET_S")); err == nil && v > 0 {
+		budget = time.Duration(v) * time.Second // development aid: shorter/longer cap
 	}
 	deadline := time.Now().Add(budget)
 
 	sp := pktgen.Enumerate(pktgen.Bases(), 2)
 	cases := sp.Cases
+	for i, a := range os.Args {
+		if a == "--replay" && i+1 < len(os.Args) {
+			replayMain(sp, os.Args[i+1])
+		}
+	}
 	sort.SliceStable(cases, func(i, j int) bool { return len(cases[i].Devs) < len(cases[j].Devs) })
 	// rotate inside the 2-deviation block by seed so that a capped run does not always stop in
 	// the same corner
@@ -925,10 +995,11 @@ func main() {
 		"three_cuts":                             st.cuts3,
 		"encoder_own_segmentations":              st.natural,
 		"packets_with_every_1_and_2_cut":         st.fullSeg,
-		"packets_with_header_neighbourhood_cuts_only": st.headerSeg,
-		"largest_packet_bytes":                        st.maxLen,
-		"standalone_name_checks":                      st.nameChecks,
-		"violating_observations":                      nViol,
+		"packets_with_header_neighbourhood_cuts_only":                        st.headerSeg,
+		"largest_packet_bytes":                                               st.maxLen,
+		"standalone_name_checks":                                             st.nameChecks,
+		"violating_observations":                                             nViol,
+		"stale_digest_name_without_parameters_rejected_by_decoder_(allowed)": st.mayReject,
 		"cpu_seconds_by_phase_and_class": map[string][3]float64{ // class: every-cut packets, quick-tier 2-deviation small packets, >400 B packets
 			"build": secs(st.nsBuild), "contiguous": secs(st.nsRt), "name": secs(st.nsName), "segmentation": secs(st.nsSeg)},
 		"bounds": map[string]any{
@@ -948,7 +1019,7 @@ func main() {
 		"component, payload and key values are fixed byte patterns: only lengths, types, presence and buffer splits vary",
 		"segmentations never contain an empty segment (cut offsets are distinct and strictly inside the packet)",
 		"an error returned by MakeInterest/MakeData means no packet was built; the property says nothing about it (listed under api_refused_to_build)",
-		"a trailing ParametersSha256Digest component in the input name of an Interest may be kept or dropped by the API",
+		"a trailing ParametersSha256Digest component in the input name of an Interest may be kept or dropped by the API; if the encoded Interest has no parameters and its name still ends in such a component the decoder may reject it",
 		"durations are whole milliseconds; Nonce <= 2^32-1 and HopLimit <= 255 (the ranges the wire format can carry)",
 		"the independent walker (harness/pktgen/walker.go) is trusted as the definition of well-formed NDN TLV",
 	})
